@@ -146,9 +146,10 @@ def gen(run):
     # buffer runs dry): a read-ahead bound that is a few bits short rejects exactly the streams whose reference starts in that window
     for k in (range(0, 72) if quick else range(0, 160)):
         for dsym in ((28,) if quick else (28, 26, 29)):
-            r = V.boundary_sweep(k, dist_sym=dsym)
-            if r:
-                yield C.case(r[0], r[1], r[2]), "valid-boundary-sweep"
+            for gl in (1, 15):          # a shallow green code, and one whose length symbol has a 15-bit code
+                r = V.boundary_sweep(k, glen_lit=gl, dist_sym=dsym)
+                if r:
+                    yield C.case(r[0], r[1], r[2]), "valid-boundary-sweep"
     # long literal runs with red/blue/alpha codes of depth 15: a pixel costs more bits than a back-reference; the stream crosses
     # several refills of the 4 KiB bit buffer at varying bit offsets (read-ahead computation, C08's anchor lossless.rs:303-313)
     for i in range(40 if quick else 600):
